@@ -240,6 +240,14 @@ def check_laws(run, mon, kind, n, oshape, ashape, bshape, tkind, cx, raw, X, A, 
     if noncomm < 1e-6 and n >= 2:
         mon.skip("commuting pair drawn")
 
+    # every other case asks for the factors' inverses *before* composing, so that
+    # anything an object memoises about itself (seeded change C03-2: a cached
+    # inverse carried onto the product by apply's shallow copy) is in place when
+    # the product and its inverse are formed
+    if idx % 2:
+        B.inv()
+        A.inv()
+
     # (A@B)@X ~ A@(B@X)
     AB = A @ B
     L = AB @ X
